@@ -68,8 +68,10 @@ inline size_t big_size(Src &s, bool huge_ok = false)
     // trivially constructible elements only: counts around 65536 (two-byte counters)
     if (huge_ok && s.below(40) == 0)
         return (size_t)s.range(65530, 65545);
-    switch (s.weighted({3, 2, 2, 1}))
+    switch (s.weighted({3, 2, 2, 1, 2}))
     {
+    case 4:
+        return (size_t)s.pick<uint32_t>({255, 256, 257, 511, 512, 513, 768, 1024});
     case 0:
         return (size_t)s.range(250, 262);
     case 1:
@@ -191,10 +193,22 @@ template <class V, class T, class Api = ApiPrimary> struct VecRun
             bool from_slot = j != i && s.coin();
             if (from_slot)
                 src = model[j];
+            else if (big_mode())
+            {
+                // a long foreign range: 255, 256, 257, 512, ... elements (lengths that are multiples of 256 included)
+                size_t len = big_size(s);
+                for (size_t k = 0; k < len; k++)
+                    src.push_back((int)((k * 7 + 3) % 6));
+            }
             else
                 for (int k = (int)s.below(5); k > 0; k--)
                     src.push_back((int)s.below(6));
             size_t a = s.below(src.size() + 1), b = a + s.below(src.size() - a + 1);
+            if (big_mode() && !from_slot && s.coin())
+            {
+                a = 0;
+                b = src.size(); // the whole range
+            }
             snprintf(name, sizeof name, "v%d.insert(%zu, %s[%zu..%zu))", i, pos, from_slot ? "other vector" : "foreign array", a, b);
             c.log("%s ", name);
             if (pos > 0 && pos < n && n >= 2 && b > a)
